@@ -25,7 +25,7 @@ META = {
                     '<= 3 leaves, 3-key tables; trailing |t| <= 4',
     },
     'outside': 'depth > 3 (the property names depth 32), strings > 3 code points, Decimal > 3 digits '
-               'except the listed boundary strings, 255-byte keys',
+               'except the listed boundary strings, keys other than <= 1 code point and the listed X*n samples',
     'cuts': ['exception message formatting', 'LOGGER calls (key truncation warning)'],
     'assumptions': ['K3: trunc(RNE((sec*10^6+us)/10^6)) == sec for 0 <= sec < 2^32 (LRA query with '
                     'the IEEE-754 half-ulp bound, discharged by harness c15 kernels)'],
@@ -314,6 +314,23 @@ def partitions(tier, seed):
                 p.rep['sel%d' % j] = sv
             p.bound += '; leaf kinds fixed to %s' % (sels,)
             parts.append(p)
+    # key length boundaries (keys <= 128 characters and <= 255 UTF-8 bytes are inside the property):
+    # concrete keys X*n, one code point X per UTF-8 length class, value symbolic
+    samples = [('a', 1), ('a', 127), ('a', 128), ('\u00e9', 64), ('\u00e9', 65), ('\u00e9', 127),
+               ('\u20ac', 42), ('\u20ac', 43), ('\u20ac', 85), ('\U0001f600', 32), ('\U0001f600', 33),
+               ('\U0001f600', 63)]
+    for i, (c, n) in enumerate(samples):
+        parts.append(Part('key_len_%d' % i, [('v', 'int')] + T, ['-2**63 <= v < 2**63'] + TP,
+                          'def body(v, t):\n'
+                          '    key = %r * %d\n'
+                          '    tbl = hx.table([(key, v), ("z" + key[1:], [v])])\n'
+                          '    enc = hx.fix(encode.field_table(tbl))\n'
+                          '    c, got = decode.field_table(enc + hx.buf(hx.blist(t, %d)))\n'
+                          '    return c == len(enc) and eqv(got, tbl)\n' % (c, n, tl),
+                          PRE, 120, family='key_length',
+                          bound='table keys %r*%d (%d UTF-8 bytes) and a sibling sharing all but the first '
+                                'character; value any 64-bit integer' % (c, n, n * len(c.encode('utf-8'))),
+                          rep={'v': 5, 't': trep}))
     parts.append(Part('twin_leaf_int', [('n', 'int')] + T, ['-2**63 <= n < 2**63'] + TP,
                       (LEAF_INT % {'tl': tl}).replace('return ok and', 'return not ok or not'),
                       PRE, 60, expect='refuted', family='leaf', bound='vacuity twin'))
